@@ -2253,9 +2253,80 @@ struct Explorer {
     return o;
   }
 
+  /// What a terminal shows after receiving `bytes`: CR returns to column 0, LF starts a new line (ONLCR), ESC [ K erases
+  /// to the end of the line, every other control sequence (colours) changes no text, anything else overwrites at the
+  /// cursor.  No wrapping: a long line stays one line (wrapping loses nothing either).
+  static vector<string> Screen(const string& bytes) {
+    vector<string> lines(1);
+    size_t row = 0, col = 0;
+    for (size_t i = 0; i < bytes.size(); ++i) {
+      unsigned char c = bytes[i];
+      if (c == '\r') { col = 0; continue; }
+      if (c == '\n') { ++row; col = 0; if (row >= lines.size()) lines.resize(row + 1); continue; }
+      if (c == 0x1b) {
+        if (i + 1 < bytes.size() && bytes[i + 1] == '[') {
+          size_t j = i + 2;
+          while (j < bytes.size() && !((unsigned char)bytes[j] >= 0x40 && (unsigned char)bytes[j] <= 0x7e)) ++j;
+          if (j < bytes.size() && bytes[j] == 'K' && j == i + 2) lines[row].resize(min(lines[row].size(), col));
+          i = j;
+        }
+        continue;   // a bare ESC prints nothing
+      }
+      if (lines[row].size() < col) lines[row].resize(col, ' ');
+      if (col < lines[row].size()) lines[row][col] = (char)c; else lines[row].push_back((char)c);
+      ++col;
+    }
+    return lines;
+  }
+
+  /// C20 on a terminal: what the user sees.  Every finished command's output, as a terminal would show it on its own,
+  /// appears as consecutive whole lines of the screen; a failed command's block is preceded by FAILED and its command line.
+  void CheckTerminal(const Op& op, const RunResult& r, vector<Violation>* out) {
+    vector<string> screen = Screen(r.out);
+    auto bad = [&](const string& clause, const string& detail, const string& stmt) {
+      Violation x; x.prop = "C20"; x.clause = clause; x.detail = detail;
+      x.facts.set("stmt", stmt);
+      x.facts.set("terminal", true);
+      out->push_back(x);
+    };
+    for (auto& c : r.cmds) {
+      if (!c.finished || c.unreaped || c.output.empty()) continue;
+      if (c.status == 130) return;
+      vector<string> want = Screen(c.output);
+      bool ends_nl = c.output.back() == '\n';
+      if (ends_nl && !want.empty() && want.back().empty()) want.pop_back();
+      if (want.empty()) continue;
+      // find `want` as consecutive lines; the last line may be followed by more text only if the output lacked its newline
+      bool found = false;
+      int count = 0;
+      for (size_t s0 = 0; s0 + want.size() <= screen.size(); ++s0) {
+        bool ok = true;
+        for (size_t k = 0; ok && k < want.size(); ++k) {
+          const string& have = screen[s0 + k];
+          if (k + 1 == want.size() && !ends_nl) ok = have.compare(0, want[k].size(), want[k]) == 0;
+          else ok = have == want[k];
+        }
+        if (ok) { found = true; ++count; }
+      }
+      if (!found) {
+        bad("terminal-output-lost", "on a terminal the output of '" + c.spec.id() + "' is not visible whole (" +
+            (ends_nl ? "" : "it does not end in a newline; ") + "first line: '" + want[0].substr(0, 60) + "')", c.spec.id());
+        continue;
+      }
+      if (count > 1) bad("terminal-output-repeated", "on a terminal the output of '" + c.spec.id() + "' is visible more than once", c.spec.id());
+      if (c.status != 0) {
+        string whole;
+        for (auto& l : screen) whole += l + "\n";
+        if (whole.find("FAILED: [code=" + to_string(c.status) + "] ") == string::npos || whole.find(c.spec.line + "\n") == string::npos)
+          bad("terminal-failed-block", "on a terminal the FAILED line / command line of '" + c.spec.id() + "' is not visible", c.spec.id());
+      }
+    }
+  }
+
   void CheckTranscript(const Op& op, const RunResult& r, vector<Violation>* out) {
     if (r.hang || r.crashed || r.horizon) return;
     for (auto& e : r.events) if (e.kind == Event::kInterrupt) return;
+    if (op.cfg.env.count("VERIF_TTY_COLS")) { CheckTerminal(op, r, out); return; }
     const string& T = r.out;
     auto bad = [&](const string& clause, const string& detail, const string& stmt = "") {
       Violation x; x.prop = "C20"; x.clause = clause; x.detail = detail;
